@@ -12,7 +12,7 @@ from harness.core import attempt, cq_bool, cq_str, cq_vals
 from nested_pandas import NestedFrame
 from nested_pandas.series.ext_array import NestedExtensionArray as NEA
 
-LAYOUTS = [l for l in gen.LAYOUTS if l != "missing_hidden"] + ["history", "history"]
+LAYOUTS = list(gen.LAYOUTS) + ["history", "history"]
 
 
 def snapshot_other(nf, skip):
